@@ -651,6 +651,53 @@ def check(recipe) -> list[Fail]:
                         a = mv.atoms[i]
                         fails.append(Fail("handedness-not-inverted-by-mirroring", f"{where}: centre {i} ({a.element.symbol}, {len(list(mv.connected_atoms(a)))} neighbours): h={hv[i]:+.3f}, mirrored h={hm[i]:+.3f}", recipe=sub))
                         break
+        if recipe.get("broken") is not None and not fails and only is None and len(keys) >= 2:
+            # ---- one fragment of the file is DAMAGED (a node without a position): asking for its label fails.  The object is used on:
+            #      every other label still parses to what it parsed to before the failure (constitution, totals)
+            bkeys = [k for k in keys if k != "ORPHAN" and _resolve_label(path, k) is not None]
+            if len(bkeys) >= 2:
+                victim = bkeys[recipe["broken"] % len(bkeys)]
+                vid = _resolve_label(path, victim)
+                tree_ = ET.parse(path)
+                hit = False
+                for fr_ in tree_.getroot().findall("./page/fragment") + tree_.getroot().findall("./page/group/fragment"):
+                    if fr_.get("id") == vid:
+                        for n_ in fr_.findall("./n"):
+                            if "p" in n_.attrib:
+                                del n_.attrib["p"]
+                                hit = True
+                                break
+                if hit:
+                    bpath = os.path.join(d, "broken.cdxml")
+                    tree_.write(bpath)
+                    brk = _open(bpath)
+                    others = [k for k in bkeys if k != victim and _resolve_label(path, k) != vid]
+
+                    def _pass():
+                        out_ = {}
+                        for k in others:
+                            with warnings.catch_warnings():
+                                warnings.simplefilter("ignore")
+                                m_ = brk[k]
+                            out_[k] = (m_.charge, m_.mult, mol_graph(m_))
+                        return out_
+                    try:
+                        first = _pass()
+                        failed = False
+                        try:
+                            with warnings.catch_warnings():
+                                warnings.simplefilter("ignore")
+                                brk[victim]
+                        except Exception:
+                            failed = True
+                        second = _pass() if failed else first
+                    except Exception as e:
+                        fails.append(Fail(f"parse-raises-next-to-a-damaged-fragment:{exc_sig(e.__cause__ or e) or type(e).__name__}", f"{fname} ops={ops} victim={victim!r}: {e!r}"[:300], recipe=dict(recipe)))
+                        first = second = {}
+                    for k in first:
+                        if first[k][:2] != second[k][:2] or not iso(first[k][2], second[k][2]):
+                            fails.append(Fail("label-parses-differently-after-another-label-failed", f"{fname}[{k!r}] ops={ops}: charge/mult {first[k][:2]} before, {second[k][:2]} after the request for the damaged {victim!r} failed", recipe=dict(recipe)))
+                            break
         tally(units=max(0, n - 1), nontrivial_keys=nt_keys, labels={"centres_with_absolute_handedness_checked": len(nt_abs)})
     finally:
         shutil.rmtree(d, ignore_errors=True)
@@ -669,12 +716,12 @@ def classify(recipe):
 def enum_identity(tier, shard, nshards):
     for i, f in enumerate(FILES):
         if i % nshards == shard:
-            yield {"file": f, "ops": [], "seed": 0}
+            yield {"file": f, "ops": [], "seed": 0, "broken": 1 + i}
 
 
 def strat_variants(tier):
     ops = st.lists(st.sampled_from(["permute_top", "translate", "renumber", "permute_nodes", "group_all", "recharge"]), min_size=1, max_size=4, unique=True)
-    return st.fixed_dictionaries({"file": st.sampled_from(FILES), "ops": ops, "seed": st.integers(0, 10**6)})
+    return st.fixed_dictionaries({"file": st.sampled_from(FILES), "ops": ops, "seed": st.integers(0, 10**6), "broken": st.one_of(st.none(), st.integers(0, 50))})
 
 
 def classify_drawn(recipe):
